@@ -209,6 +209,8 @@ func genOpts(rng *rand.Rand, tier string, mode string) sim.Opts {
 	}
 	// runs with static membership are also replayed through the abstract protocol Spec/Raft.lean
 	o.SpecCheck = !o.ConfChanges && rng.Intn(4) != 0
+	// runs with membership changes: half of them are replayed through the reconfiguration protocol Spec/Reconf.lean
+	o.SpecR = o.ConfChanges && rng.Intn(2) == 0
 	return o
 }
 
@@ -251,7 +253,7 @@ func oneRun(o sim.Opts, useModel bool) (rr runResult) {
 			return rr
 		}
 	}
-	if c.Spec != nil && len(c.Violations) == 0 {
+	if c.Spec != nil && (len(c.Violations) == 0 || os.Getenv("VERIF_SPEC_ALWAYS") != "") { // (the variable: debugging aid, to see what the trace check alone says)
 		rr.SpecActs = len(c.Spec.Lines)
 		if p := os.Getenv("VERIF_SPECDUMP"); p != "" { // debugging aid: the abstract action stream of the run
 			os.WriteFile(p, []byte(strings.Join(c.Spec.Lines, "\n")+"\n"), 0o644)
@@ -655,6 +657,12 @@ func summarise(res *report.Result, all []runResult, expected int) {
 		}
 		if rr.Opts.Fuzz > 0 {
 			res.Stats["runs_nodefuzz"]++
+		}
+		if rr.Opts.SpecR && rr.SpecActs > 0 {
+			res.Stats["runs_specr_checked"]++
+		}
+		for _, k := range []string{"specr_cfg_entries", "specr_applyTo", "specr_restarts"} {
+			res.Stats[k] += rr.Stats[k]
 		}
 		if rr.Opts.IDMul > 1 || (len(rr.Opts.Voters) > 0 && rr.Opts.Voters[0] > 1<<32) {
 			res.Stats["runs_spread_ids"]++
